@@ -64,7 +64,7 @@ GJ(A, r, c, prev, sgn, pc, ok) ==
                    num(i, j) == p * B[i][j] - B[i][c] * B[r + 1][j]
                    \* TLCEval: force the (otherwise lazily re-evaluated) function into a tuple
                    C == TLCEval([i \in 1..m |-> IF i = r + 1 THEN B[i]
-                                                ELSE [j \in 1..nc |-> num(i, j) \div prev]])
+                                                ELSE TLCEval([j \in 1..nc |-> num(i, j) \div prev])])
                    exact == \A i \in 1..m : i # r + 1 => \A j \in 1..nc : num(i, j) % Abs(prev) = 0
                IN IF ~small
                   THEN [A |-> A, rank |-> r, piv |-> prev, sgn |-> sgn, pc |-> pc, ok |-> FALSE]
@@ -86,8 +86,8 @@ KernelBasis(A) ==
       pcs == {e.pc[i] : i \in 1..e.rank}
       free == {f \in 1..nc : f \notin pcs}
       rowOf(c) == CHOOSE i \in 1..e.rank : e.pc[i] = c
-  IN {[c \in 1..nc |-> IF c = f THEN e.piv
-                       ELSE IF c \in pcs THEN 0 - e.A[rowOf(c)][f] ELSE 0] : f \in free}
+  IN {TLCEval([c \in 1..nc |-> IF c = f THEN e.piv
+                               ELSE IF c \in pcs THEN 0 - e.A[rowOf(c)][f] ELSE 0]) : f \in free}
 
 \* unique solution of the square system A x = b (A non-singular), as rationals
 Solve(A, b) ==
